@@ -75,7 +75,7 @@ class Parser(BaseParser):
         e = Entry(type)
         for field in item:
             field_name = remove_ns(field.tag)
-            if field_name in Person.valid_roles:
+            if field_name.lower() in Person.valid_roles:
                 process_person(field, field_name)
             else:
                 field_text = field.text if field.text is not None else ''
